@@ -4,7 +4,8 @@
 (* from tile address (x, y, level, dimension values) to bytes.             *)
 (*                                                                         *)
 (* Actions are the public operations of mapproxy.cache.base.TileCacheBase: *)
-(*   store_tile, store_tiles, remove_tile, load_tile, load_tiles,          *)
+(*   store_tile, store_tiles, remove_tile, remove_tiles, load_tile,        *)
+(*   load_tiles,                                                           *)
 (*   is_cached.  `reply` is what the caller observes (bytes per requested  *)
 (* address for loads, a boolean for is_cached; the return flags of store   *)
 (* calls are not part of the property).                                    *)
@@ -42,6 +43,8 @@ ApplyAll(st, ps) == IF ps = <<>> THEN st
 Store(a, b)    == store' = [store EXCEPT ![a] = b] /\ reply' = Rep("store", <<a>>, <<>>)
 StoreBulk(ps)  == store' = ApplyAll(store, ps) /\ reply' = Rep("store_bulk", [i \in 1 .. Len(ps) |-> ps[i][1]], <<>>)
 Remove(a)      == store' = [store EXCEPT ![a] = None] /\ reply' = Rep("remove", <<a>>, <<>>)
+RemoveBulk(as) == /\ store' = [a \in Addr |-> IF \E i \in 1 .. Len(as) : as[i] = a THEN None ELSE store[a]]
+                  /\ reply' = Rep("remove_bulk", as, <<>>)
 Load(a)        == reply' = Rep("load", <<a>>, <<store[a]>>) /\ UNCHANGED store
 LoadBulk(as)   == reply' = Rep("load_bulk", as, [i \in 1 .. Len(as) |-> store[as[i]]]) /\ UNCHANGED store
 IsCached(a)    == reply' = Rep("is_cached", <<a>>, <<YesNo(store[a] # None)>>) /\ UNCHANGED store
@@ -50,7 +53,7 @@ Next ==
   \/ \E a \in Addr, b \in Bytes : Store(a, b)
   \/ \E ps \in SeqsUpTo(Addr \X Bytes, MaxBulk) : StoreBulk(ps)
   \/ \E a \in Addr : Remove(a) \/ Load(a) \/ IsCached(a)
-  \/ \E as \in DistinctSeqsUpTo(Addr, MaxBulk) : LoadBulk(as)
+  \/ \E as \in DistinctSeqsUpTo(Addr, MaxBulk) : LoadBulk(as) \/ RemoveBulk(as)
 
 Spec == Init /\ [][Next]_cmvars
 
